@@ -138,8 +138,8 @@ pub enum Act {
 /// (initial rto ms, retransmits, last retransmit timeout ms): 5 named configurations used by the
 /// state-space slices, followed by the grid of the schedule sweep (6 x 9 x 4).
 pub const N_NAMED_CFGS: usize = 5;
-pub const GRID_RTO: [u64; 6] = [1, 2, 499, 500, 1000, 60_000];
-pub const GRID_LAST: [u64; 4] = [0, 1, 8000, 60_000];
+pub const GRID_RTO: [u64; 6] = [1, 37, 499, 500, 3000, 60_000];
+pub const GRID_LAST: [u64; 4] = [0, 1, 7777, 60_000];
 pub fn n_cfgs() -> usize {
     N_NAMED_CFGS + GRID_RTO.len() * 9 * GRID_LAST.len()
 }
